@@ -12,11 +12,21 @@ import (
 	"net"
 	"os"
 	"runtime"
+	"strconv"
 	"strings"
 	"sync"
 	"testing"
 	"time"
 )
+
+// vSlack stretches the at-rest / hang deadlines of the schedule lanes: VERIF_C16_SLACK=4 turns 15 s into 60 s.
+// Used when a case that timed out in the shared run is re-measured alone (c16.py: remeasure).
+func vSlack(d time.Duration) time.Duration {
+	if k, err := strconv.Atoi(os.Getenv("VERIF_C16_SLACK")); err == nil && k > 1 {
+		return d * time.Duration(k)
+	}
+	return d
+}
 
 // error classes shared with coq/C16/Model.v
 const (
